@@ -12,6 +12,18 @@ CHECKS = {
                 technique="explicit-state model checking: TLC state graph of tla/ThreadCpu.tla (invariant: <=1 running thread per physical CPU) walked against the real emulator with local/remote affinity events and same-clock events; binding pass through the real ovniemu",
                 text="In every reachable model state every thread-state and affinity event (all CPUs incl. virtual and non-existent, all remote targets incl. other looms) is probed on the real emulator: any event whose successor would put two running threads on a physical CPU must be refused, and after every accepted event all CPU rows (nrunning, TID, PID) must equal the model's. Logical index and physical id are permuted so a confusion changes a row.",
                 note="Trusted: as C04. When an affinity event is legal is a soft guard (only oversubscription and the effect on the rows are hard)."),
+    "C01": dict(level="model_checking", engine="E1 rt_driver", ref="DESIGN.md 5 (C01)",
+                technique="explicit-state search on the real libovni: state = fill level of the staging buffer, every API operation executed in every reachable fill level (small capacities via a wrapper TU, and the last bytes below the real 2 MiB capacity), deviation-bounded short writes; on-disk stream decoded by an independent parser",
+                text="Every operation (all payload sizes 0,2..16 in several payload_add splits, every jumbo size the API accepts, flush, mark push/pop/set) is executed in every reachable fill level of the per-thread buffer for capacities 64/97/128/200 and in every fill level of the last 40-100 bytes below the real 2 MiB boundary; 1-2 short writes at every write of every short path. After thread free the stream file must be the 8-byte header followed by exactly the emitted events, byte-identical and in call order, plus OF[/OF] markers only. Built with ASan+UBSan.",
+                note="Trusted: lib/obs.py (written from the trace specification), the deterministic interposed clock, the wrapper translation unit that only redefines OVNI_MAX_EV_BUF. Payload bytes follow a few patterns; USE_TSC not covered."),
+    "C02": dict(level="model_checking", engine="E1 rt_driver + real ovniemu", ref="DESIGN.md 5 (C02)",
+                technique="explicit-state search over buffer fill levels restricted to protocol-conformant programs; every produced trace validated by an independent trace-specification checker and by the real ovniemu -l",
+                text="Protocol-conformant programs (proc/thread init, CPU, execute, ops, end, flush, free, fini) are enumerated over every reachable fill level x every operation for small capacities, and over all (fill, jumbo size) pairs that force an automatic flush and leave 1..69 bytes of room at the real capacity. Every stream must tile exactly, have non-decreasing clocks, properly paired non-nested OF[/OF] and complete metadata, and the real emulator must finish ok.",
+                note="Trusted: lib/obs.py validator, the emulator binary built from the same tree. Events use the burst MCV whose payload the ovni model ignores."),
+    "C06": dict(level="model_checking", engine="E3 emu_server + TLC", ref="DESIGN.md 5 (C06)",
+                technique="explicit-state search on the real emulator over the product of the TLC thread/CPU graph and the per-thread value state of one quantity group at a time; displayed thread and CPU rows compared with a reference evaluation after every accepted event (clock steps 1 and 0)",
+                text="For each group of per-thread quantities (nOS-V subsystem/idle/task ids, Nanos6 subsystem/thread type/idle/task ids, NODES, TAMPI, OpenMP, MPI function, kernel context switch, ovni flush, user marks) every interleaving state of two threads over the loom's CPUs (incl. virtual, oversubscribed) with every value state is reached, every thread/affinity/value event is probed, and the thread row must show the value exactly while the state satisfies the tracking mode; the CPU row must show the unique running thread's value, else nothing (or the idle default).",
+                note="Trusted: tracking-mode table of DESIGN A.3 (cross-checked with the .pcf labels), golden enter values; value-event legality is soft (C08); value depth 1 (2 for two groups in the thorough tier); numeric task ids/type gids are learned from the thread row then required everywhere."),
     "C08": dict(level="model_checking", engine="E3 emu_server", ref="DESIGN.md 5 (C08)",
                 technique="explicit-state search on the real emulator: state = stacks of open regions of a thread (depth <= 2), every documented event of the model probed in every state against a stack reference; golden value/label table; binding pass through the real ovniemu",
                 text="For each of the eight models every nesting of depth <= 2 of its documented enter events is reached on the real emulator and every documented argument-less event is probed there: the matching leave must be accepted, every other leave refused, every non-re-entering enter accepted, and thread and CPU rows must show the documented value of the innermost open region. Also: required thread state (6 states x in/out of CPU), lint on open regions for all enter events, a depth-512 path with the 513th push refused, and .pcf labels.",
@@ -50,9 +62,11 @@ def main():
                   "baseline_off_cmd": "cmake --build /repo/_build && ctest --test-dir /repo/_build -j8 --timeout 900",
                   "source_commits": [], "add_only": True},
         "engines": [
-            {"name": "E3 emu_server", "path": "harness/emu_server.c", "serves_properties": ["C04", "C05", "C08"],
+            {"name": "E3 emu_server", "path": "harness/emu_server.c", "serves_properties": ["C04", "C05", "C06", "C08"],
              "kind_free_text": "the unmodified emulator as a fork-checkpoint exploration server; Python BFS over (model state, implementation hash)"},
-            {"name": "TLC", "path": "tla/", "serves_properties": ["C04", "C05"],
+            {"name": "E1 rt_driver", "path": "harness/rt_driver.c", "serves_properties": ["C01", "C02"],
+             "kind_free_text": "libovni compiled into the driver from the working tree (OVNI_MAX_EV_BUF overridable), interposed clock/write/abort; Python enumerates programs over buffer fill levels"},
+            {"name": "TLC", "path": "tla/", "serves_properties": ["C04", "C05", "C06"],
              "kind_free_text": "TLA+ reference models; complete labelled state graph dumped and replayed against the implementation"},
         ],
         "checks": checks,
